@@ -53,6 +53,11 @@ int __real_usleep(useconds_t);
 unsigned __real_sleep(unsigned);
 FILE *__real_fopen(const char *, const char *);
 
+/* optional observer (additive, used by C15's h_thr): called at the entry of every wrapped call with the
+   call's name and its first arguments; NULL (the default) = no effect whatsoever */
+void (*env_syscall_hook)(const char *name, long a, long b, long c);
+#define ENV_HOOK(name, a, b, c) do { if (env_syscall_hook) env_syscall_hook(name, (long)(a), (long)(b), (long)(c)); } while (0)
+
 #define MAXFD 2048
 static int fd_hi;     /* highest descriptor number ever tracked + 1 */
 
@@ -78,6 +83,7 @@ struct efd {
     int family;
     int state;
     int bound, bound_fixed_port;
+    int rebind_ok;         /* disconnected after a port-0 binding: Linux lets bind() succeed again (DESIGN 1.6 b) */
     struct ipport local, remote;
     int conn_pending;      /* the library has not been told the outcome yet */
     int conn_err;          /* outcome: 0 = connected */
@@ -386,6 +392,7 @@ int env_epoll_interest(int epfd, int fd)
 
 int __wrap_epoll_create1(int flags)
 {
+    ENV_HOOK("epoll_create1", flags, 0, 0);
     if (cfg.fault_resource && in_api()) {
         int a = mc_choose(3, MC_FAULT, "fault:epoll_create1");
         if (a) {
@@ -401,6 +408,7 @@ int __wrap_epoll_create1(int flags)
 
 int __wrap_epoll_ctl(int epfd, int op, int fd, struct epoll_event *ev)
 {
+    ENV_HOOK("epoll_ctl", epfd, op, fd);
     if (fd < 0 || fd >= MAXFD || fdt[fd].kind != K_TCP)
         return __real_epoll_ctl(epfd, op, fd, ev);
     struct ereg *r = reg_find(epfd, fd);
@@ -505,6 +513,7 @@ static int poll_emulated(struct pollfd *fds, nfds_t n)
 
 int __wrap_poll(struct pollfd *fds, nfds_t n, int timeout)
 {
+    ENV_HOOK("poll", fds, n, timeout);
     if (timeout == 0)
         return poll_emulated(fds, n);
     sleep_monitor("poll");
@@ -515,6 +524,7 @@ int __wrap_poll(struct pollfd *fds, nfds_t n, int timeout)
 
 int __wrap_ppoll(struct pollfd *fds, nfds_t n, const struct timespec *ts, const sigset_t *ss)
 {
+    ENV_HOOK("ppoll", fds, n, 0);
     if (ts && ts->tv_sec == 0 && ts->tv_nsec == 0)
         return poll_emulated(fds, n);
     sleep_monitor("ppoll");
@@ -525,6 +535,7 @@ int __wrap_ppoll(struct pollfd *fds, nfds_t n, const struct timespec *ts, const 
 
 int __wrap_select(int nfds, fd_set *r, fd_set *w, fd_set *x, struct timeval *tv)
 {
+    ENV_HOOK("select", nfds, 0, 0);
     if (!(tv && tv->tv_sec == 0 && tv->tv_usec == 0))
         sleep_monitor("select");
     return __real_select(nfds, r, w, x, tv);
@@ -532,6 +543,7 @@ int __wrap_select(int nfds, fd_set *r, fd_set *w, fd_set *x, struct timeval *tv)
 
 int __wrap_epoll_wait(int epfd, struct epoll_event *evs, int max, int timeout)
 {
+    ENV_HOOK("epoll_wait", epfd, max, timeout);
     if (mc_in_task() && timeout != 0) {
         sleep_monitor("epoll_wait");
         struct pollfd p = { .fd = epfd, .events = POLLIN };
@@ -545,6 +557,7 @@ int __wrap_epoll_wait(int epfd, struct epoll_event *evs, int max, int timeout)
 
 int __wrap_nanosleep(const struct timespec *req, struct timespec *rem)
 {
+    ENV_HOOK("nanosleep", 0, 0, 0);
     if (mc_in_task()) {
         sleep_monitor("nanosleep");
         vclock_ns += (int64_t)req->tv_sec * 1000000000LL + req->tv_nsec;
@@ -555,6 +568,7 @@ int __wrap_nanosleep(const struct timespec *req, struct timespec *rem)
 
 int __wrap_usleep(useconds_t us)
 {
+    ENV_HOOK("usleep", us, 0, 0);
     if (mc_in_task()) {
         sleep_monitor("usleep");
         vclock_ns += (int64_t)us * 1000;
@@ -565,6 +579,7 @@ int __wrap_usleep(useconds_t us)
 
 unsigned __wrap_sleep(unsigned s)
 {
+    ENV_HOOK("sleep", s, 0, 0);
     if (mc_in_task()) {
         sleep_monitor("sleep");
         vclock_ns += (int64_t)s * 1000000000LL;
@@ -589,6 +604,7 @@ static void blocking_fd_monitor(int fd, const char *call)
 /* ---- time ----------------------------------------------------------------------------- */
 int __wrap_clock_gettime(clockid_t id, struct timespec *ts)
 {
+    ENV_HOOK("clock_gettime", id, 0, 0);
     if (id == CLOCK_MONOTONIC || id == CLOCK_MONOTONIC_RAW || id == CLOCK_MONOTONIC_COARSE ||
         id == CLOCK_BOOTTIME) {
         ts->tv_sec = vclock_ns / 1000000000LL;
@@ -664,6 +680,7 @@ static void ev_clock_fire(void *a)
 
 int __wrap_timerfd_create(int clockid, int flags)
 {
+    ENV_HOOK("timerfd_create", clockid, flags, 0);
     (void)clockid;
     if (cfg.fault_resource && in_api()) {
         int a = mc_choose(3, MC_FAULT, "fault:timerfd_create");
@@ -680,6 +697,7 @@ int __wrap_timerfd_create(int clockid, int flags)
 
 int __wrap_timerfd_settime(int fd, int flags, const struct itimerspec *nv, struct itimerspec *ov)
 {
+    ENV_HOOK("timerfd_settime", fd, flags, 0);
     if (fd < 0 || fd >= MAXFD || fdt[fd].kind != K_TIMER)
         return __real_timerfd_settime(fd, flags, nv, ov);
     if (ov)
@@ -716,6 +734,7 @@ static int res_fault(const char *what, const int *errnos, int n)
 
 int __wrap_socket(int domain, int type, int proto)
 {
+    ENV_HOOK("socket", domain, type, proto);
     static const int errs[] = { EMFILE, ENFILE, ENOMEM, ENOBUFS };
     if (res_fault("socket", errs, 4) < 0)
         return -1;
@@ -746,6 +765,7 @@ int __wrap_socket(int domain, int type, int proto)
 
 int __wrap_eventfd(unsigned init, int flags)
 {
+    ENV_HOOK("eventfd", init, flags, 0);
     static const int errs[] = { EMFILE, ENFILE, ENOMEM };
     if (res_fault("eventfd", errs, 3) < 0)
         return -1;
@@ -792,6 +812,7 @@ static int port_in_use(int fd, const struct ipport *a)
 
 int __wrap_bind(int fd, const struct sockaddr *sa, socklen_t len)
 {
+    ENV_HOOK("bind", fd, sa, len);
     static const int errs[] = { EADDRINUSE, EADDRNOTAVAIL, EACCES };
     if (fd < 0 || fd >= MAXFD || fdt[fd].kind != K_TCP) {
         if (res_fault("bind", errs, 3) < 0)
@@ -810,11 +831,14 @@ int __wrap_bind(int fd, const struct sockaddr *sa, socklen_t len)
     }
     if (res_fault("bind", errs, 3) < 0)
         return -1;
-    if (e->bound) {
+    if (e->bound && !e->rebind_ok) {
         /* real kernel: a second bind fails with EINVAL when the socket already has a port */
         errno = EINVAL;
         return -1;
     }
+    /* ... except after connect(AF_UNSPEC) when the port was not locked by the first bind (port 0
+       or implicit binding): inet_num is 0 again and bind() succeeds (probed on loopback TCP) */
+    e->rebind_ok = 0;
     if (!is_local_addr(&a)) {
         errno = EADDRNOTAVAIL;
         return -1;
@@ -833,6 +857,7 @@ int __wrap_bind(int fd, const struct sockaddr *sa, socklen_t len)
 
 int __wrap_listen(int fd, int backlog)
 {
+    ENV_HOOK("listen", fd, backlog, 0);
     static const int errs[] = { EADDRINUSE };
     if (res_fault("listen", errs, 1) < 0)
         return -1;
@@ -1009,6 +1034,7 @@ static void tcp_disconnect(int fd)
 
 int __wrap_connect(int fd, const struct sockaddr *sa, socklen_t len)
 {
+    ENV_HOOK("connect", fd, sa, len);
     if (fd < 0 || fd >= MAXFD || fdt[fd].kind != K_TCP) {
         static const int errs[] = { EAGAIN, ECONNREFUSED, ENOENT };
         if (fd >= 0 && fd < MAXFD && fdt[fd].kind == K_UNIXSEQ && res_fault("connect", errs, 3) < 0)
@@ -1019,6 +1045,8 @@ int __wrap_connect(int fd, const struct sockaddr *sa, socklen_t len)
     struct efd *e = &fdt[fd];
     if (sa->sa_family == AF_UNSPEC) {
         tcp_disconnect(fd);
+        if (e->bound && !e->bound_fixed_port)
+            e->rebind_ok = 1;
         return 0;
     }
     blocking_fd_monitor(fd, "connect");
@@ -1224,16 +1252,19 @@ static int do_accept(int fd, struct sockaddr *sa, socklen_t *len, int flags)
 
 int __wrap_accept4(int fd, struct sockaddr *sa, socklen_t *len, int flags)
 {
+    ENV_HOOK("accept4", fd, flags, 0);
     return do_accept(fd, sa, len, flags);
 }
 
 int __wrap_accept(int fd, struct sockaddr *sa, socklen_t *len)
 {
+    ENV_HOOK("accept", fd, 0, 0);
     return do_accept(fd, sa, len, 0);
 }
 
 int __wrap_getsockname(int fd, struct sockaddr *sa, socklen_t *len)
 {
+    ENV_HOOK("getsockname", fd, 0, 0);
     if (fd < 0 || fd >= MAXFD || fdt[fd].kind != K_TCP)
         return __real_getsockname(fd, sa, len);
     struct efd *e = &fdt[fd];
@@ -1247,6 +1278,7 @@ int __wrap_getsockname(int fd, struct sockaddr *sa, socklen_t *len)
 
 int __wrap_getpeername(int fd, struct sockaddr *sa, socklen_t *len)
 {
+    ENV_HOOK("getpeername", fd, 0, 0);
     if (fd < 0 || fd >= MAXFD || fdt[fd].kind != K_TCP)
         return __real_getpeername(fd, sa, len);
     struct efd *e = &fdt[fd];
@@ -1306,6 +1338,7 @@ void env_connect_log_entry(int i, int *fd, char *ip, int iplen, int *port)
 
 int __wrap_setsockopt(int fd, int level, int opt, const void *val, socklen_t len)
 {
+    ENV_HOOK("setsockopt", fd, level, opt);
     if (fd < 0 || fd >= MAXFD || fdt[fd].kind != K_TCP) {
         if (fd >= 0 && fd < MAXFD && fdt[fd].kind == K_UNIXSEQ && cfg.fault_resource && in_api()) {
             static const int errs[] = { ENOMEM };
@@ -1377,6 +1410,7 @@ int __wrap_setsockopt(int fd, int level, int opt, const void *val, socklen_t len
 
 int __wrap_getsockopt(int fd, int level, int opt, void *val, socklen_t *len)
 {
+    ENV_HOOK("getsockopt", fd, level, opt);
     if (fd < 0 || fd >= MAXFD || fdt[fd].kind != K_TCP)
         return __real_getsockopt(fd, level, opt, val, len);
     struct efd *e = &fdt[fd];
@@ -1511,6 +1545,7 @@ static void kill_fd(int fd)
 
 ssize_t __wrap_send(int fd, const void *buf, size_t len, int flags)
 {
+    ENV_HOOK("send", fd, buf, len);
     if (fd < 0 || fd >= MAXFD)
         return __real_send(fd, buf, len, flags);
     struct efd *e = &fdt[fd];
@@ -1619,6 +1654,7 @@ ssize_t __wrap_send(int fd, const void *buf, size_t len, int flags)
 
 ssize_t __wrap_recv(int fd, void *buf, size_t cap, int flags)
 {
+    ENV_HOOK("recv", fd, buf, cap);
     if (fd < 0 || fd >= MAXFD)
         return __real_recv(fd, buf, cap, flags);
     struct efd *e = &fdt[fd];
@@ -1699,6 +1735,7 @@ ssize_t __wrap_recv(int fd, void *buf, size_t cap, int flags)
 /* ---- close --------------------------------------------------------------------------------- */
 int __wrap_close(int fd)
 {
+    ENV_HOOK("close", fd, 0, 0);
     if (fd >= 0 && fd < MAXFD) {
         struct efd *e = &fdt[fd];
         /* inside an API call the library may only close what it created itself (every descriptor
@@ -1751,6 +1788,7 @@ int env_lib_fds_open(void)
 /* ---- credential files --------------------------------------------------------------------- */
 FILE *__wrap_fopen(const char *path, const char *mode)
 {
+    ENV_HOOK("fopen", path, mode, 0);
     if (cfg.fault_resource && in_api()) {
         static const int errs[] = { EMFILE, ENFILE, EACCES, ENOENT };
         if (res_fault("fopen", errs, 4) < 0)
